@@ -37,10 +37,13 @@ theorem addTier_fails_before_mutation (g : Tg Int) (t : AnyTier Int) (idx : Opti
     · obtain ⟨g', hg', _⟩ := C12.addTier_spec g t idx rep hn hr
       rw [hg'] at h; cases h
 
-/-- collision in `error` mode is detected before any entry is deleted or added -/
-theorem insertEntry_collision_atomic (t : ITier Int) (hwf : t.WF) (x : Iv Int) (hx : x.s < x.e) (hstr : pyStrip x.l = x.l)
+/-- collision in `error` mode is detected before any entry is deleted or added — for ANY entry (any label; a
+zero-length or reversed one is refused even earlier, `C11.insert_rejects`) -/
+theorem insertEntry_collision_atomic (t : ITier Int) (hwf : t.WF) (x : Iv Int)
     (iv : Iv Int) (hiv : iv ∈ t.es) (hcol : iv.s < x.e ∧ x.s < iv.e) :
     C11.run t [.insert x .error] = t := by
-  simp [C11.run, C11.step, C11.insert_error t hwf x hx hstr iv hiv hcol]
+  by_cases hx : x.s < x.e
+  · simp [C11.run, C11.step, C11.insert_error t hwf x hx iv hiv hcol]
+  · simp [C11.run, C11.step, C11.insert_rejects t x .error (by omega)]
 
 end C13
